@@ -127,6 +127,12 @@ func crosstabExprFor(exprs ...goexpr.Expr) goexpr.Expr {
 	return goexpr.Concat(allExprs...)
 }
 
+// minVarGoExprParams lists the variadic functions that need a minimum number of
+// parameters (CONCAT's first parameter is the delimiter).
+var minVarGoExprParams = map[string]int{
+	"CONCAT": 1,
+}
+
 var varGoExpr = map[string]func(...goexpr.Expr) goexpr.Expr{
 	"CONCAT":    goexpr.Concat,
 	"CROSSTAB":  crosstabExprFor,
@@ -1197,6 +1203,9 @@ func goFnExprFor(e *sqlparser.FuncExpr, fname string) (goexpr.Expr, error) {
 	}
 	vfn, found := varGoExpr[fname]
 	if found {
+		if numParams < minVarGoExprParams[fname] {
+			return nil, fmt.Errorf("%v requires at least %d parameter(s)", fname, minVarGoExprParams[fname])
+		}
 		params := make([]goexpr.Expr, 0, numParams)
 		for i := 0; i < numParams; i++ {
 			param, err := paramGoExpr(e, i)
